@@ -72,9 +72,17 @@ pub fn format_all(directory: &Option<PathBuf>, args: &CliArguments) -> Result<Fo
     let entries = WalkDir::new(directory)
         .into_iter()
         // The given directory itself is always visited, whatever it is called (e.g. `.` or `.config`).
-        .filter_entry(|e| e.depth() == 0 || !is_hidden(e))
-        .filter_map(Result::ok);
+        .filter_entry(|e| e.depth() == 0 || !is_hidden(e));
     for entry in entries {
+        let entry = match entry {
+            Ok(entry) => entry,
+            Err(e) => {
+                // A directory that does not exist or cannot be read is an I/O error like an unreadable file.
+                error!("{e}");
+                summary.error_count += 1;
+                continue;
+            }
+        };
         if !(entry.file_type().is_file() && entry.path().extension() == Some("typ".as_ref())) {
             continue;
         }
